@@ -66,6 +66,10 @@ def features(q):
                         f.add("varlen-after-earlier-clause")
                 if len(nodes) != len(set(nodes)):
                     f.add("same-node-var-twice-in-pattern")
+                    if has_var:
+                        # a variable-length step in a pattern that names one node variable twice (the walk has to close on a node the
+                        # SAME pattern bound before)
+                        f.add("varlen-in-pattern-that-repeats-a-node-variable")
                     if seen_frame:
                         f.add("same-node-var-twice-after-earlier-clause")
                 # `[*n]` / `[*n..n]`: an expansion of one exact length (the translator may lower it to n fixed steps)
